@@ -51,22 +51,33 @@ E1 == [buckets |-> <<"bucket1">>, proofs |-> <<>>, resv |-> <<>>, addrs |-> <<>>
 E2 == [buckets |-> <<"bucket2">>, proofs |-> <<>>, resv |-> <<>>, addrs |-> <<>>, intents |-> <<>>]
 BoolFields == {"eq", "eq_ins", "eq_blobs", "eq_children", "eq_pre", "eq_names", "eq_bytes", "fix"}
 Flip(p, f) == [x \in DOMAIN p |-> IF x = f THEN ~p[x] ELSE p[x]]
-ASSUME LawAcceptsIdeal == \A s \in NameStyles : PartOk(Ideal(E1), E1, s, "ok")
+ASSUME LawAcceptsIdeal == \A s \in NameStyles : PartOk(Ideal(E1), E1, s, "ok", 3)
 ASSUME LawRejectsCorruptions ==
-  /\ \A f \in BoolFields : ~PartOk(Flip(Ideal(E1), f), E1, "default", "ok")
-  /\ \A f \in BoolFields \ {"eq", "eq_names", "eq_bytes"} : ~PartOk(Flip(Ideal(E1), f), E1, "unknown", "ok")
-  /\ \A f \in {"eq", "eq_names", "eq_bytes"} : PartOk(Flip(Ideal(E1), f), E1, "unknown", "ok")
-  /\ ~PartOk(Ideal(E2), E1, "default", "ok") /\ ~PartOk(Ideal(E2), E1, "unknown", "ok")
-  /\ ~PartOk([Ideal(E1) EXCEPT !.dec = "err"], E1, "default", "ok")
-  /\ ~PartOk([Ideal(E1) EXCEPT !.dec = "panic"], E1, "default", "ok")
-  /\ ~PartOk([Ideal(E1) EXCEPT !.comp = "err"], E1, "default", "ok")
-  /\ ~PartOk([Ideal(E1) EXCEPT !.comp = "panic"], E1, "default", "ok")
-  /\ PartOk([dec |-> "err"], E1, "default", "err") /\ ~PartOk(Ideal(E1), E1, "default", "err")
-  /\ PartOk([Ideal(E1) EXCEPT !.encodable = FALSE, !.eq_bytes = FALSE], E1, "default", "ok")
+  /\ \A f \in BoolFields : ~PartOk(Flip(Ideal(E1), f), E1, "default", "ok", 3)
+  /\ \A f \in BoolFields \ {"eq", "eq_names", "eq_bytes"} : ~PartOk(Flip(Ideal(E1), f), E1, "unknown", "ok", 3)
+  /\ \A f \in {"eq", "eq_names", "eq_bytes"} : PartOk(Flip(Ideal(E1), f), E1, "unknown", "ok", 3)
+  /\ ~PartOk(Ideal(E2), E1, "default", "ok", 3) /\ ~PartOk(Ideal(E2), E1, "unknown", "ok", 3)
+  /\ ~PartOk([Ideal(E1) EXCEPT !.dec = "err"], E1, "default", "ok", 3)
+  /\ ~PartOk([Ideal(E1) EXCEPT !.dec = "panic"], E1, "default", "ok", 3)
+  /\ ~PartOk([Ideal(E1) EXCEPT !.comp = "err"], E1, "default", "ok", 3)
+  /\ ~PartOk([Ideal(E1) EXCEPT !.comp = "panic"], E1, "default", "ok", 3)
+  /\ PartOk([dec |-> "err"], E1, "default", "err", 3) /\ ~PartOk(Ideal(E1), E1, "default", "err", 3)
+  \* the depth boundary: at 19 the full law applies, beyond it only "no panic"
+  /\ PartOk(Ideal(E1), E1, "default", "ok", MaxArgDepth) /\ ~PartOk(Ideal(E1), E1, "default", "ok", MaxArgDepth + 1)
+  /\ ~PartOk([Ideal(E1) EXCEPT !.encodable = FALSE], E1, "default", "ok", MaxArgDepth)
+  /\ PartOk([dec |-> "ok", comp |-> "err", encodable |-> FALSE], E1, "default", "ok", MaxArgDepth + 1)
+  /\ ~PartOk([dec |-> "ok", comp |-> "panic", encodable |-> FALSE], E1, "default", "ok", MaxArgDepth + 1)
+  /\ ~PartOk([dec |-> "panic", encodable |-> FALSE], E1, "default", "ok", MaxArgDepth + 1)
+ASSUME DepthLaws ==
+  /\ Depth(U8(1)) = 1 /\ Depth(V("Tuple", "", 0, <<U8(1), V("Enum", "", 1, <<U8(2)>>)>>)) = 3
+  /\ Depth(V("Nest", "", 18, <<U8(1)>>)) = 19 /\ Depth(Wrap(1, V("Nest", "", 18, <<U8(1)>>))) = 20
+  /\ \E j \in 1..NLeaves : Depth(Leaves[j]) = MaxArgDepth
+  /\ \E j \in 1..NLeaves : Depth(Leaves[j]) = MaxArgDepth + 1
 \* ---- the shape table
 ASSUME ShapeLaws ==
-  /\ \A j \in 1..(NShapes1 + NShapes2) : Nodes(Shape(j)) >= 1
+  /\ \A j \in {1, NShapes1 + 1, NShapes1 + 10, NShapes1 + NShapes2 + 1, NShapes} : Nodes(Shape(j)) >= 1
   /\ \A j \in 1..NLeaves : Shape(j) = Leaves[j]
   /\ \A w \in LinearWraps : CountIn(Wrap(w, Leaf("Bucket", "", 3)), "Bucket", 3) = 1
-  /\ \E j \in 1..NShapes : Nodes(Shape(j)) >= 5
+  /\ \E j \in (NShapes1 + NShapes2 + 1)..(NShapes1 + NShapes2 + 200) : Nodes(Shape(j)) >= 5
+  /\ NLeaves = 117 /\ NShapes = 117 * 111
 =============================================================================
